@@ -13,6 +13,19 @@ PROPS = [c["property_id"] for c in json.load(open("/verif/MANIFEST.json"))["chec
 NW = 8
 
 
+
+def make_snapshot():
+    """Frozen copy of the checker, so that editing /verif/sa while a long run is in progress
+    does not mix versions.  Removed by the caller."""
+    import shutil
+    import tempfile
+    d = tempfile.mkdtemp(prefix="sa_snap_")
+    shutil.copytree("/verif/sa", os.path.join(d, "sa"), ignore=shutil.ignore_patterns("__pycache__"))
+    for fn in ("known_findings.json", "reviewed_derefs.json", "MANIFEST.json", "properties.jsonl"):
+        shutil.copy("/verif/" + fn, os.path.join(d, fn))
+    return d
+
+
 def sh(cmd, cwd=None, env=None):
     p = subprocess.run(cmd, shell=True, cwd=cwd, env=env, capture_output=True, text=True, timeout=900)
     return p.returncode, p.stdout + p.stderr
@@ -36,7 +49,7 @@ def work(args):
             continue
         res = {}
         for pid in PROPS:
-            rc, o = sh("/venv/bin/python -m sa.check %s --repo %s" % (pid, wt), cwd="/verif", env=env)
+            rc, o = sh("/venv/bin/python -m sa.check %s --repo %s" % (pid, wt), cwd=os.environ.get("SA_SNAP", "/verif"), env=env)
             if rc != 0:
                 lines = o.splitlines()
                 diag = [lines[j - 1][:260] for j, l in enumerate(lines)
@@ -55,9 +68,12 @@ def work(args):
 def main():
     chunks = [(i, SEEDS[i::NW]) for i in range(NW)]
     results = {}
+    snap = make_snapshot()
+    os.environ["SA_SNAP"] = snap
     with cf.ThreadPoolExecutor(NW) as ex:
         for r in ex.map(work, chunks):
             results.update(r)
+    sh("rm -rf %s" % snap)
     rows = []
     det_t = det_a = 0
     for s in SEEDS:
